@@ -17,6 +17,7 @@ func init() {
 				{Dir: "netutil", Func: "VerifC02Label", Opts: o},
 				{Dir: "netutil", Func: "VerifC02Hostname", Opts: o},
 				{Dir: "netutil", Func: "VerifC02HostnameBoundaries", Opts: o},
+				{Dir: "netutil", Func: "VerifC02HostnameIDN", Opts: o},
 			}
 		},
 		Bounds: func(thorough bool) map[string]string {
@@ -31,10 +32,11 @@ func init() {
 				"long ports":                                        "'1.2.3.4:' or '[::1]:' followed by 1..7 (thorough 1..24) arbitrary decimal digits, or by 0..3 zeros + the leading digits of 2^16/2^31/2^32/2^63/2^64 + five arbitrary digits (every value within 10^5 of those powers, where an accumulator of that width wraps); reference: the real strconv.ParseUint",
 				"IsValidHostnameLabel":                              "every byte string of length 0..65",
 				"IsValidHostname, free strings":                     "every ASCII string of length 0.." + h + " without an 'xn--' label, through the real idna.ToASCII",
+				"IsValidHostname, IDN lengths":                      "29..32 labels 'я' (3k raw / 8k punycode bytes) or 3..5 labels of 40 'а' (81k raw bytes, short punycode) + a final label 'c'+one arbitrary ASCII byte, through the real idna.ToASCII",
 				"IsValidHostname, boundaries":                       "label lengths 1/62/63/64 and total lengths 252/253/254 with hostname-alphabet bytes and one arbitrary ASCII byte at a chosen position",
 			}
 		},
-		Outside:     []string{"free-form IP strings longer than the bound that are not in the shape families", "hostnames with non-ASCII bytes or 'xn--' labels (what idna.ToASCII does with them)", "hostnames longer than the bound outside the boundary shapes"},
+		Outside:     []string{"free-form IP strings longer than the bound that are not in the shape families", "hostnames with non-ASCII bytes outside the IDN length family, or with 'xn--' labels", "hostnames longer than the bound outside the boundary shapes"},
 		Assumptions: []string{"the reference parsers are the real netip.ParseAddr / ParseAddrPort / ValidateHostname / ValidateHostnameLabel, executed from their go1.24.2 / repo sources"},
 		Stubs:       []string{"fmt.Errorf/Sprintf (error texts opaque)", "unique.Make (interning intrinsic)", "internal/bytealg index/count primitives (engine intrinsics forking on the match position)"},
 		Technique:   "SSA->SMT bounded symbolic execution; differential harness implementation vs. real reference parser on the same symbolic string",
